@@ -251,6 +251,8 @@ pub trait Sut: Clone + Debug + PartialEq + Serialize + DeserializeOwned + Send +
     fn aged(_base: &[(A, u64)]) -> Option<Self> {
         None
     }
+    /// number of commands one replica issues up front in a "wide" history (many elements before the conflicts start)
+    const WIDE_PREFIX: usize = 10;
     /// interpret a command at replica `actor` against the current state through the public API
     fn gen(&self, actor: A, cmd: &Cmd, sh: &mut Shadow, old: &Self) -> Option<Gen<Self::Op>>;
     fn apply_op(&mut self, op: Self::Op);
@@ -294,7 +296,18 @@ thread_local! {
     /// writers) become likely instead of being diluted over the key space
     pub static HOT: std::cell::Cell<bool> = const { std::cell::Cell::new(false) };
 }
+thread_local! {
+    /// "wide" profile of the current history: keys and members are drawn from a domain of this size (0 = off) and
+    /// batches hold 5-8 items, so that sets/maps with many elements, long keysets and big batches occur
+    pub static WIDE: std::cell::Cell<u8> = const { std::cell::Cell::new(0) };
+}
+pub fn wide() -> u8 {
+    WIDE.with(|w| w.get())
+}
 pub fn rand_key(rng: &mut crate::rng::Rng) -> u64 {
+    if wide() > 0 {
+        return rng.below(wide() as usize) as u64;
+    }
     if HOT.with(|h| h.get()) && rng.chance(4, 5) {
         0
     } else {
@@ -302,6 +315,9 @@ pub fn rand_key(rng: &mut crate::rng::Rng) -> u64 {
     }
 }
 pub fn rand_member(rng: &mut crate::rng::Rng) -> u64 {
+    if wide() > 0 {
+        return rng.below(wide() as usize) as u64;
+    }
     if HOT.with(|h| h.get()) && rng.chance(3, 5) {
         0
     } else {
